@@ -27,13 +27,13 @@ import (
 // messages overtake each other), may be duplicated, and one node can be made slow for one kind
 // of message.
 type schedule struct {
-	Name        string        `json:"name"`
-	MaxDelay    time.Duration `json:"max_delay"`  // uniform random delay per delivery (reordering)
-	DupProb     float64       `json:"dup_prob"`   // probability that a delivery is repeated later
-	SlowNode    int           `json:"slow_node"`  // position in the node list, -1 = none
-	SlowKind    string        `json:"slow_kind"`  // "all" | "gossip" | "deal" | "response" | "justification"
-	SlowDelay   time.Duration `json:"slow_delay"` // extra delay for deliveries of that kind to the slow node
-	Crash       bool          `json:"crash"` // one non-leader node (the one with the smallest key among them) crashes when the execution starts
+	Name      string        `json:"name"`
+	MaxDelay  time.Duration `json:"max_delay"`  // uniform random delay per delivery (reordering)
+	DupProb   float64       `json:"dup_prob"`   // probability that a delivery is repeated later
+	SlowNode  int           `json:"slow_node"`  // position in the node list, -1 = none
+	SlowKind  string        `json:"slow_kind"`  // "all" | "gossip" | "deal" | "response" | "justification"
+	SlowDelay time.Duration `json:"slow_delay"` // extra delay for deliveries of that kind to the slow node
+	Crash     bool          `json:"crash"`      // one non-leader node (the one with the smallest key among them) crashes when the execution starts
 }
 
 type rnode struct {
@@ -43,7 +43,13 @@ type rnode struct {
 	dir   string
 	store *dkg.BoltStore
 	proc  *dkg.Process
-	done  chan dkg.SharingOutput
+	done  chan doneEv
+}
+
+// doneEv is a completion notice of a node's dkg.Process with the instant it was emitted.
+type doneEv struct {
+	out dkg.SharingOutput
+	at  time.Time
 }
 
 type bus struct {
@@ -270,6 +276,7 @@ type nodeObs struct {
 	OnPoly    bool     `json:"share_on_polynomial"`
 	Key       []byte   `json:"-"`
 	fin       *dkg.DBState
+	doneAt    time.Time
 }
 
 type epochObs struct {
@@ -314,7 +321,12 @@ func (w *world) addNode(rng *rand.Rand, i int) (*rnode, error) {
 	conf := dkg.Config{Timeout: time.Minute, TimeBetweenDKGPhases: w.sc.Phase, KickoffGracePeriod: 800 * time.Millisecond}
 	n := &rnode{addr: addr, kp: kp, part: part, dir: dir, store: st}
 	n.proc = dkg.NewDKGProcess(st, ident{kp}, out, &client{w.bus, addr}, nil, conf, quietLogger().Named(fmt.Sprintf("S%s/%s", w.sc.Name[:2], addr[:2])))
-	n.done = out.Listen()
+	n.done = make(chan doneEv, 8)
+	go func(in chan dkg.SharingOutput, to chan doneEv) {
+		for so := range in {
+			to <- doneEv{so, time.Now()}
+		}
+	}(out.Listen(), n.done)
 	w.bus.mu.Lock()
 	w.bus.nodes[addr] = n
 	w.bus.mu.Unlock()
@@ -403,13 +415,15 @@ func (w *world) collect(members []*rnode, epoch uint32, t0 int64, wait time.Dura
 			}
 		}
 		var t1 int64
+		var doneAt time.Time
 		got := false
 		for !got {
 			select {
-			case so := <-n.done:
-				if so.New.Epoch == epoch {
+			case ev := <-n.done:
+				if ev.out.New.Epoch == epoch {
 					got = true
-					t1 = time.Now().Unix()
+					t1 = ev.at.Unix()
+					doneAt = ev.at
 				}
 			case <-time.After(time.Until(deadline)):
 				cur, _ := n.store.GetCurrent(w.sc.BeaconID)
@@ -434,7 +448,7 @@ func (w *world) collect(members []*rnode, epoch uint32, t0 int64, wait time.Dura
 			}
 			continue
 		}
-		o := nodeObs{Node: idx, Addr: n.addr, fin: fin, T0: t0, T1: t1, Key: append([]byte{}, n.part.Key...)}
+		o := nodeObs{Node: idx, Addr: n.addr, fin: fin, T0: t0, T1: t1, doneAt: doneAt, Key: append([]byte{}, n.part.Key...)}
 		o.State = projState(fin, w.sch)
 		o.Group = projGroup(fin.FinalGroup)
 		o.GroupHash = fin.FinalGroup.Hash()
